@@ -1,6 +1,7 @@
 package main
 
 import (
+	"encoding/json"
 	"reflect"
 	"regexp"
 	"runtime"
@@ -53,3 +54,5 @@ func cmdEmailPolicy() *bluemonday.Policy {
 	p.AddTargetBlankToFullyQualifiedLinks(true)
 	return p
 }
+
+func jsonUnmarshal(s string, v interface{}) error { return json.Unmarshal([]byte(s), v) }
